@@ -13,6 +13,7 @@
 #if SIM_PART == 0
     #define SIM_MAIN_TU 1
 #endif
+#include "../sim/onepass.hpp"
 #include "../sim/worker.hpp"
 
 #include <stdexcept>
@@ -84,48 +85,6 @@ inline constexpr bool is_sut_v = false;
 template <typename C, size_t N, typename Tr>
 inline constexpr bool is_sut_v<etl::basic_inplace_string<C, N, Tr>> = true;
 
-// single-pass input iterator over a counted character range
-template <typename C>
-struct OnePassSource {
-    C const* p;
-    size_t n;
-    size_t pos;
-};
-
-struct OnePassTag : std::input_iterator_tag, etl::input_iterator_tag { };
-
-template <typename C>
-struct OnePassIt {
-    using iterator_category = OnePassTag;
-    using value_type        = C;
-    using difference_type   = std::ptrdiff_t;
-    using pointer           = C const*;
-    using reference         = C const&;
-
-    OnePassSource<C>* src = nullptr;
-
-    auto operator*() const -> reference { return src->p[src->pos]; }
-
-    auto operator++() -> OnePassIt&
-    {
-        ++src->pos;
-        return *this;
-    }
-
-    auto operator++(int) -> OnePassIt
-    {
-        auto t = *this;
-        ++src->pos;
-        return t;
-    }
-
-    [[nodiscard]] auto at_end() const -> bool { return src == nullptr || src->pos >= src->n; }
-
-    friend auto operator==(OnePassIt const& a, OnePassIt const& b) -> bool { return a.at_end() == b.at_end() && (a.at_end() || a.src == b.src); }
-
-    friend auto operator!=(OnePassIt const& a, OnePassIt const& b) -> bool { return !(a == b); }
-};
-
 // every string modifier that returns basic_string& returns *this (calls can be chained): checked by address
 inline bool g_selfRef = true;
 inline int g_predCalls = 0; // state of the counting erase_if predicate (outside the function object: it may be copied)
@@ -185,8 +144,8 @@ auto apply_mut(int kind, int var, Str& s, Args<Str, View> const& A) -> long
         case 15: {
             // a genuine single-pass input iterator (copies share one consumable source, like istream_iterator): the
             // range can be traversed once only
-            OnePassSource<C> src{A.ptr, A.len, 0};
-            self_ref(s, s.append(OnePassIt<C>{&src}, OnePassIt<C>{}));
+            sim::OnePassSource<C> src{A.ptr, A.len, 0};
+            self_ref(s, s.append(sim::OnePassIt<C>{&src}, sim::OnePassIt<C>{}));
             break;
         }
         default: self_ref(s, s.append(*A.other, A.pos2)); break;
@@ -254,6 +213,15 @@ auto apply_mut(int kind, int var, Str& s, Args<Str, View> const& A) -> long
         if (var == 0) {
             return static_cast<long>(erase(s, A.ch));
         }
+        if (var == 3) {
+            // a value of another type that is not representable as a character: it is compared with every character as
+            // it is (std::erase), never narrowed to the character type first - nothing may be removed
+            if constexpr (sizeof(C) == 1) {
+                return static_cast<long>(erase(s, static_cast<int>(static_cast<unsigned char>(A.ch)) + 0x100));
+            } else {
+                return static_cast<long>(erase(s, static_cast<long long>(A.ch) + (1LL << 40)));
+            }
+        }
         if (var == 2) {
             // a predicate with (external) state: it accepts every second match, so each character has to be shown to it
             // exactly once and in order
@@ -279,7 +247,7 @@ auto apply_mut(int kind, int var, Str& s, Args<Str, View> const& A) -> long
     }
 }
 
-constexpr int kMutVariants[] = {9, 4, 16, 9, 5, 9, 2, 1, 1, 2, 5, 3, 5};
+constexpr int kMutVariants[] = {9, 4, 16, 9, 5, 9, 2, 1, 1, 2, 5, 4, 5};
 
 // ------------------------------------------------------------------------------------------------ generic observers
 #define SIM_SEARCH(fn)                                                                                                 \
